@@ -17,7 +17,9 @@ class C16(Prop):
             "hash (fresh, junk, made stale by a change after the plan was shown) x running status at both samples x "
             "authorisation x outcome of every import, ReconfigureProcessor, StopAndWait and Start on the way; random in "
             "quick, every combination in thorough; plus concurrent applies to the same and to different pipeline ids "
-            "with the first apply's lifecycle calls held open. distinct = distinct input JSON; non-trivial = the apply "
+            "with the first apply's lifecycle calls held open; end-to-end cases: the REAL v1 lifecycle service runs source -> "
+            "processor -> destination with records flowing and the real ApplyPlanLive applies a restart-class or a "
+            "processor-only plan after `pre` delivered records with `inflight` records racing it. distinct = distinct input JSON; non-trivial = the apply "
             "made at least one lifecycle or store call, or is a lock case")
     trusted_base = [
         "Coq 8.16.1 kernel + vm_compute (no native_compute)",
@@ -31,8 +33,12 @@ class C16(Prop):
         "C15: a transactionalImport either commits the whole new config or leaves the stored config unchanged",
         "C06: a successful lifecycle StopAndWait leaves the pipeline fully drained with durable positions; a failed one "
         "leaves it as it was",
-        "C03/C02: Start resumes every connector from its durable position (the end-to-end 'no record skipped across the "
-        "apply' half of C16 composes these with the decision procedure proved here; it is not re-proved here)",
+        "C03/C02: Start resumes every connector from its durable position. The end-to-end half is proved as a composition "
+        "(C16_apply_no_skip, C16_apply_restart_continues) over an abstract record flow whose behaviour under StopAndWait / "
+        "Start / import / swap is assumed to be exactly these conclusions of C06, C03, C15, C13; on the real v1 lifecycle "
+        "service it is checked by trace acceptance (AE2E cases), not proved",
+        "the end-to-end cases run the v1 engine (pkg/lifecycle) only; one source, one destination, one pipeline processor; "
+        "no failing StopAndWait / Start in the end-to-end cases (those are covered by the decision cases)",
         "C13: a successful ReconfigureProcessor swaps the processor at a record boundary",
         "a raw lifecycle Start from outside provisioning is not serialised by the per-pipeline lock (stated in plan.go)",
         "sync.Mutex semantics for the per-pipeline lock; the lock model's atomic actions are the calls the apply makes",
@@ -42,22 +48,30 @@ class C16(Prop):
 
     def shards(self, tier, seed):
         if tier == "quick":
-            return [["--replay", CORPUS]] + [["--seed", str(seed), "--n", "60"] for _ in range(16)]
+            return ([["--replay", CORPUS]] + [["--seed", str(seed), "--n", "45"] for _ in range(12)]
+                    + [["--seed", str(seed), "--mode", "e2e", "--n", "30"] for _ in range(4)])
         return [["--replay", CORPUS]] + ([["--seed", str(seed), "--mode", "all"] for _ in range(NCPU)]
-                + [["--seed", str(seed), "--n", "600"] for _ in range(NCPU)])
+                + [["--seed", str(seed), "--n", "600"] for _ in range(NCPU)]
+                + [["--seed", str(seed), "--mode", "e2e", "--n", "400"] for _ in range(NCPU)])
 
     def search_shards(self, tier, seed, round_no):
         if round_no == 0:
             return [["--seed", str(seed), "--mode", "all"] for _ in range(NCPU)]
+        if round_no == 1:
+            return [["--seed", str(seed + 31 + k), "--mode", "e2e", "--n", "150"] for k in range(NCPU)]
         return [["--seed", str(seed + 7919 * (round_no + 1) + k), "--n", "200"] for k in range(NCPU)]
 
     def nontrivial(self, case):
         i, o = case["input"], case.get("observed", {})
+        if i.get("kind") == "e2e":
+            return o.get("result") in ("ok:restart", "ok:in_place") and i["e2e"].get("pre", 0) + i["e2e"].get("inflight", 0) > 0
         return i.get("kind") == "lock" or bool(o.get("events"))
 
     def finding_key(self, case, code):
         if case["input"].get("kind") == "lock":
             return "lock/same-id-applies-interleave" if code & 2 else "lock/model-disagrees"
+        if case["input"].get("kind") == "e2e":
+            return "e2e/record-flow-monitor-rejects" if code & 2 else "e2e/calls-differ-from-decision-procedure"
         if code & 1:
             return "model-disagrees"
         if code >> 2 == 1:
@@ -66,6 +80,10 @@ class C16(Prop):
 
     def describe(self, case, code):
         i, o = case["input"], case.get("observed", {})
+        if i.get("kind") == "e2e":
+            return ("end-to-end apply %s returned %s; event log: %s" % (
+                i["e2e"], o.get("result"), " ".join("%s%s" % (e["k"], ("=%d" % e["n"]) if "n" in e and e["k"] in
+                ("read", "write", "pack", "commit", "import", "open", "end", "unread") else "") for e in o.get("events", []))))
         if i.get("kind") == "lock":
             return "concurrent applies (same_id=%s) produced the call log %s" % (i["lock"].get("same_id"), o.get("log"))
         return ("ApplyPlanLive with %s made the calls %s and returned %s; afterwards running=%s stored config=%s "
@@ -79,6 +97,10 @@ class C16(Prop):
             i, o = c["input"], c.get("observed", {})
             if i.get("kind") == "lock":
                 d["lock"] += 1
+                continue
+            if i.get("kind") == "e2e":
+                d["e2e"] = d.get("e2e", 0) + 1
+                d["e2e:" + str(o.get("result"))] = d.get("e2e:" + str(o.get("result")), 0) + 1
                 continue
             d["dec"] += 1
             r = o.get("result", "")
